@@ -13,10 +13,13 @@ open Poly.Generated
 
 abbrev Bytes := List UInt8
 
-/-- Big-endian bytes of `n` without leading zeros (`BE` of the Yellow Paper; `0 ↦ []`). -/
-def natBE (n : Nat) : Bytes :=
-  if _h : n = 0 then [] else natBE (n / 256) ++ [UInt8.ofNat (n % 256)]
-decreasing_by omega
+/-- Big-endian bytes of `n` without leading zeros (`BE` of the Yellow Paper; `0 ↦ []`); structural on a fuel argument
+(`n` itself is more than enough: every step divides by 256). -/
+def natBEAux : Nat → Nat → Bytes
+  | 0, _ => []
+  | fuel + 1, n => if n = 0 then [] else natBEAux fuel (n / 256) ++ [UInt8.ofNat (n % 256)]
+
+def natBE (n : Nat) : Bytes := natBEAux n n
 
 /-- Length prefix: `base + len` below 56, else `base + 55 + ‖BE(len)‖` followed by `BE(len)`. -/
 def lenPrefix (base : Nat) (len : Nat) : Bytes :=
